@@ -3,7 +3,9 @@ package sim
 import (
 	"reflect"
 	"strings"
+	"sync"
 	"time"
+	"unsafe"
 )
 
 // pendingBackoff reads, by reflection, the per-item failure counts of the rate
@@ -44,6 +46,14 @@ func (w *World) pendingBackoff() (d time.Duration, ok bool) {
 				panic("unexpected limiter layout")
 			}
 			found = true
+			// the workers update this map under the limiter's own lock: take it, too
+			if lk := l.FieldByName("failuresLock"); lk.IsValid() && lk.CanAddr() {
+				mu := (*sync.Mutex)(unsafe.Pointer(lk.UnsafeAddr()))
+				mu.Lock()
+				defer mu.Unlock()
+			} else {
+				panic("limiter lock not reachable")
+			}
 			it := failures.MapRange()
 			for it.Next() {
 				n := it.Value().Int()
